@@ -10,7 +10,7 @@
    theirs (in order, nothing twice), links and object entries exactly theirs (each once),
    the full-sync flag, and the last ConfigMap data captured. *)
 From Coq Require Import ZArith NArith List Bool String.
-From HI Require Import Model.Watch Proofs.Watch.
+From HI Require Import Model.Watch Proofs.Watch Model.WatchLegacy Proofs.WatchLegacy.
 Import ListNotations.
 
 (* the segments cut the history: every event is in exactly one of them *)
@@ -116,3 +116,59 @@ Theorem C14_notifications : forall cfg steps,
   w_notifs (wrun cfg steps) = map (fun e => full_of (e_kind e)) (filter (accepted cfg) (events_of steps)).
 Proof. exact notifications. Qed.
 Print Assumptions C14_notifications.
+
+(* ---- the legacy controller's event path (pkg/controller/legacy/cache.go): k8scache.Notify fills
+        c.changed, k8scache.SwapChangedObjects describes it and hands it over. Same shape of
+        statements on Model/WatchLegacy.v; every Notify is accepted (the listers filter before).
+        `lcontent cfg seg b`: every slice of b holds exactly the objects the Notify calls of seg
+        appended (in order, nothing twice), with the full-sync flag and the last ConfigMap data;
+        Objects and Links are functions of the slices (lobjects, llinks). ---- *)
+
+Theorem C14_legacy_segments_partition_events : forall steps,
+  List.concat (lsegments steps) ++ lopen_segment steps = levents_of steps.
+Proof. exact legacy_segments_partition. Qed.
+Print Assumptions C14_legacy_segments_partition_events.
+
+Theorem C14_legacy_batches_partition : forall cfg steps k b,
+  nth_error (l_batches (lrun cfg steps)) k = Some b ->
+  exists seg, nth_error (lsegments steps) k = Some seg /\ lcontent cfg seg b.
+Proof. exact legacy_batches_partition. Qed.
+Print Assumptions C14_legacy_batches_partition.
+
+(* slice by slice: the Go slice ln of batch k is the concatenation of what each Notify of
+   segment k appended to ln *)
+Theorem C14_legacy_batch_slices : forall cfg steps k b seg ln,
+  nth_error (l_batches (lrun cfg steps)) k = Some b ->
+  nth_error (lsegments steps) k = Some seg ->
+  llist_of ln (lc_desc b) = flat_map (fun e => llist_of ln (ldescr e)) seg.
+Proof. exact legacy_batch_slices. Qed.
+Print Assumptions C14_legacy_batch_slices.
+
+Theorem C14_legacy_pending_not_lost : forall cfg steps,
+  lcontent cfg (lopen_segment steps) (l_ch (lrun cfg steps)) /\
+  l_clear (lrun cfg steps) = negb (nonempty (lopen_segment steps)).
+Proof. exact legacy_pending_not_lost. Qed.
+Print Assumptions C14_legacy_pending_not_lost.
+
+Theorem C14_legacy_next_swap_delivers_pending : forall cfg steps,
+  l_batches (lrun cfg (steps ++ [LSwap])) = l_batches (lrun cfg steps) ++ [l_ch (lrun cfg steps)].
+Proof. exact legacy_next_swap_delivers_pending. Qed.
+Print Assumptions C14_legacy_next_swap_delivers_pending.
+
+Theorem C14_legacy_configmap_chain : forall cfg steps k b b',
+  nth_error (l_batches (lrun cfg steps)) k = Some b ->
+  nth_error (l_batches (lrun cfg steps)) (S k) = Some b' ->
+  lc_gcur b' = lcarry (lc_gcur b) (lc_gnew b) /\ lc_tcur b' = lcarry (lc_tcur b) (lc_tnew b).
+Proof. exact legacy_configmap_chain. Qed.
+Print Assumptions C14_legacy_configmap_chain.
+
+Theorem C14_legacy_configmap_chain_first : forall cfg steps b,
+  nth_error (l_batches (lrun cfg steps)) 0 = Some b -> lc_gcur b = None /\ lc_tcur b = None.
+Proof. exact legacy_configmap_chain_first. Qed.
+Print Assumptions C14_legacy_configmap_chain_first.
+
+(* a reconciliation is requested once per non-empty segment (by its first Notify) *)
+Theorem C14_legacy_notifications : forall cfg steps,
+  l_notifs (lrun cfg steps) = List.length (filter nonempty (lsegments steps ++ [lopen_segment steps])).
+Proof. exact legacy_notifications. Qed.
+Print Assumptions C14_legacy_notifications.
